@@ -833,6 +833,13 @@ def r07_9(chk, sht, K):
             for (name, k), (e, delta) in inner.items():
                 cs = find_atoms(delta, lambda a: a[0] == "sub" and a[1].key() == coeffs.key())
                 ps = find_atoms(delta, lambda a: a[0] == "sub" and a[1].key() == plm_root)
+                # a coefficient that enters conjugated is the function mirrored in phi (f(theta, -phi)): the synthesis uses the coefficient itself
+                conj = [a for a in find_atoms(delta, lambda a: a[0] == "call" and call_name(a) in ("numpy.conj", "numpy.conjugate", ".conj", ".conjugate"))
+                        if coeffs.key() in P.atom(a).key()]
+                chk.ob("R07.10", SHT, q, "every coefficient enters the point value as it is stored (the synthesis does not conjugate it)", not conj,
+                       node=e.node, fingerprint=f"no-conjugate:{name}", found=[str(P.atom(a))[:80] for a in conj][:1])
+                if conj:
+                    continue
                 if len(cs) != 1 or len(ps) != 1:
                     raise NotDecidable(f"accumulator {name} is not a single product of a coefficient and a Legendre value: {delta}")
                 f = delta / (P.atom(cs[0]) * P.atom(ps[0]))
